@@ -100,6 +100,18 @@ def check_engine(ctx, case):
     if not err <= 1e-6:
         ctx.fail('engine_vs_closed_form', case, {'err': err}, {'tol': 1e-6}, {'family': fam},
                  f'{fam} n={n} tau={tau}: ω²F differs from the shipped closed form by {err:.3g}')
+        return
+    # the same pulse object evaluated on further grids of the same length (slightly shifted; an
+    # unrelated one): every frequency of every grid must satisfy the closed form
+    for om2, what in ((om*(1 + 5e-6), 'relative shift 5e-6'), (om[::-1]*1.37, 'another grid')):
+        F2 = p.get_filter_function(om2)[0, 0].real*om2**2
+        ref2 = py_value(fam, om2*tau, n)
+        e2 = float(np.max(np.abs(F2 - ref2))/max(np.max(np.abs(ref2)), 1e-3))
+        if not e2 <= 1e-6:
+            ctx.fail('engine_vs_closed_form', case, {'err': e2}, {'tol': 1e-6}, {'family': fam},
+                     f'{fam} n={n} tau={tau}: pulse re-evaluated on a second grid ({what}): ω²F '
+                     f'differs from the shipped closed form by {e2:.3g}')
+            return
 
 
 def check_finite_width(ctx, case):
@@ -144,7 +156,7 @@ def search(ctx, deep=False):
     for i in range(n):
         fam = FAMS[i % 6]
         k = int(rng.integers(1, 13)) if fam != 'CDD' else int(rng.integers(1, 7))
-        tau = float(10.0**rng.uniform(-1, 1.5))
+        tau = float(10.0**rng.uniform(-1, 1.5)) if i % 5 else float(10.0**rng.uniform(-9, 11))
         om = np.sort(10.0**rng.uniform(-1.5, 1.2, 12))/tau*rng.uniform(0.5, 5)
         # stay away from the removable singularities of PDD / CPMG
         z = om*tau
